@@ -1,5 +1,7 @@
 import FxVerif.Model.C17
 import FxVerif.Model.C17Machine
+import FxVerif.Model.C17Float
+import FxVerif.Model.C17Sort
 import FxVerif.Model.Util
 /-! line-protocol driver for the C17 models: `lake env lean --run Driver/C17.lean < ops.txt`
 
@@ -19,7 +21,16 @@ ops:
   the binary64 model `round53` / `fadd` against the machine's float unit);
 * `updateoracles <addr:power:online:delegate,…|-> | <old proposal a,b,…|-> | <new a,b,…|->` — `UpdateProposalOracles` on
   a state with these oracles (store order) and this stored proposal; answers `err:<kind>` or `ok:<unbonded addresses in
-  unbonding order|->` (the machine model with the identity schedule and the regenerated order source).
+  unbonding order|->` (the machine model with the identity schedule and the regenerated order source);
+* `render <n>` — answers the string `fmt.Sprintf("%.8f", float64(n) / float64(math.MaxUint32))` computed by the binary64
+  division / fixed-precision formatting model (`fdiv`, `fmtFixed`; divisor and precision regenerated);
+* `needset <percentRaw> <b> | <c>` — the machine's `needOracleSet` op (reversed schedule): float accumulation over the merged
+  power map, division, `%.8f`, comparison with `min(percent, 1)`; answers `<rendered>:<true|false>` or `err:<kind>`;
+* `checksorted <addr:missed,…> | <addr:missed,…>` — the bonded validators in store order and in the order the staking
+  precompile's `validatorList(missed)` returned them; answers `sorted-permutation` when the output meets the contract of a
+  sort for the regenerated comparator (`meetsSortContract missedLe`), else `not-a-permutation` / `inversion`;
+* `oracleset <addr:power,…>` — answers the addresses in the order `NewOracleSet` stores the members (`sortMembers`: the
+  regenerated comparator program of `BridgeValidators.Less`, interpreted).
 -/
 open FxVerif FxVerif.Util FxVerif.Model.C17
 
@@ -93,6 +104,36 @@ def step (st : Unit) (line : String) : Unit × String :=
       | .fees fs => (st, showFees fs)
       | _ => (st, "bad-op")
     | _, _, _ => (st, "bad-op")
+  | ["render", n] =>
+    match n.toNat? with
+    | some n => (st, showFixed FxVerif.Gen.C17.powerDiffPrecision (render n))
+    | none => (st, "bad-op")
+  | ["needset", pct, b, "|", c] =>
+    match pct.toNat?, parsePairs b, parsePairs c with
+    | some pct, some b, some c =>
+      match (exec Sched.rev (emptySt [] []) (.needOracleSet b c pct)).2 with
+      | .decision u need => (st, showFixed FxVerif.Gen.C17.powerDiffPrecision u ++ ":" ++ toString need)
+      | .err e => (st, "err:" ++ e)
+      | _ => (st, "bad-op")
+    | _, _, _ => (st, "bad-op")
+  | ["checksorted", inp, "|", outp] =>
+    match parsePairs inp, parsePairs outp with
+    | some i, some o =>
+      let toNS := fun (e : String × Nat) => (⟨e.2, e.1⟩ : NS)
+      if !(o.map toNS).isPerm (i.map toNS) then (st, "not-a-permutation")
+      else if meetsSortContract missedLe (i.map toNS) (o.map toNS) then (st, "sorted-permutation") else (st, "inversion")
+    | _, _ => (st, "bad-op")
+  | ["oracleset", ms] =>
+    match parsePairs ms with
+    | some l =>
+      -- the generic interpreter (records over the fields of BridgeValidator) and the two-field one must agree
+      let viaRec := (sortMemberRecs (l.map fun e => memberRec e.2 e.1)).map fun r =>
+        match fieldOf r "ExternalAddress" with
+        | some (.s a) => a
+        | _ => "?"
+      let viaNS := (sortMembers (l.map fun e => ⟨e.2, e.1⟩)).map (·.str)
+      if viaRec == viaNS then (st, showList viaRec) else (st, "model-disagreement")
+    | none => (st, "bad-op")
   | ["powerdiff", b, "|", c] =>
     match parsePairs b, parsePairs c with
     | some b, some c => (st, toString (powerDiffNumerator b c))
